@@ -41,6 +41,15 @@ fn check_inner(pattern: &str, text: &str) -> Option<String> {
     if names.len() != n {
         return Some(format!("capture_names has {} entries, captures_len {}", names.len(), n));
     }
+    // ... and nothing else is a name: a group written without a name has none
+    let exp = expected_names(pattern);
+    for (i, nm) in names.iter().enumerate() {
+        if let Some(nm) = nm {
+            if !exp.iter().any(|(e, idx)| *idx == i && e == nm) {
+                return Some(format!("capture_names()[{}] is {:?} but the pattern gives that group no such name (names {:?})", i, nm, names));
+            }
+        }
+    }
     let im = re.is_match(text);
     let f0 = re.find(text);
     let c0 = re.captures(text);
